@@ -1,6 +1,7 @@
 import Rooc.Wire
 import Rooc.WireSolve
 import Rooc.SolveOracle
+import Rooc.Drv.C04
 namespace Rooc.Drv.C20
 open Rooc Sexp SolverWrap
 
@@ -14,7 +15,7 @@ def handle (α : Type) [Arith α] [Wire α] : List Sexp → Sexp
     match (LinModel.dec lm : Option (LinModel α)), (ClarabelOutcome.dec out : Option (ClarabelOutcome α)) with
     | some lm, some out => (wrapClarabel lm out).enc lm.vars
     | _, _ => app "err" [.atom "decode"]
-  | _ => app "err" [.atom "bad-request"]
+  | args => Drv.C04.handle α args
 
 /-- exact oracle: reported shadow prices against exact finite differences of the certified optimum. -/
 def oracle : List Sexp → Sexp
